@@ -154,8 +154,13 @@ pub fn child_main(args: &[String]) -> i32 {
 	}
 	let _ = writeln!(o, "done {bytes}");
 	let _ = o.flush();
+	// no further call into the library; go away when the parent is gone
+	let parent = unsafe { libc::getppid() };
 	loop {
-		std::thread::sleep(std::time::Duration::from_secs(3600));
+		std::thread::sleep(std::time::Duration::from_millis(200));
+		if unsafe { libc::getppid() } != parent {
+			std::process::exit(0);
+		}
 	}
 }
 
@@ -218,8 +223,31 @@ pub fn main(args: &[String]) -> i32 {
 			if !finished && verdict.is_ok() {
 				verdict = Err("child-died the client process ended before reporting".into());
 			}
+			// the quiet period: at least 0.3 - 2.5 s, and until the files of the directory have not changed in size
+			// for a full second (workers that are still writing are not stuck; a lost wake-up shows as a
+			// directory that stays as it is while commits are missing)
 			let quiet = *rng.pick(&[300u64, 1000, 2500]);
 			std::thread::sleep(std::time::Duration::from_millis(quiet));
+			let sizes = |d: &std::path::Path| -> Vec<(String, u64)> {
+				let mut v: Vec<(String, u64)> = std::fs::read_dir(d).map(|rd| rd.flatten().map(|e| (e.file_name().to_string_lossy().to_string(), e.metadata().map(|m| m.len()).unwrap_or(0))).collect()).unwrap_or_default();
+				v.sort();
+				v
+			};
+			let mut last = sizes(&dir);
+			let mut stable = 0;
+			for _ in 0..600 {
+				std::thread::sleep(std::time::Duration::from_millis(100));
+				let now = sizes(&dir);
+				if now == last {
+					stable += 1;
+					if stable >= 10 {
+						break
+					}
+				} else {
+					stable = 0;
+					last = now;
+				}
+			}
 			let _ = ch.kill();
 			let _ = ch.wait();
 			*dist.entry("runs-killed-after-a-quiet-period".into()).or_insert(0) += 1;
